@@ -50,22 +50,45 @@ fn long_text_space(cx: &Ctx) -> (Space, Vec<char>, usize) {
     }
 }
 
+/// third sweep ("tall"): every context x small fillers over long regular texts (many loop
+/// iterations, long undo logs), searched from offset 0
+fn tall(cx: &Ctx, check_span: bool, check_groups: bool) -> Tally {
+    let space = Space::new().ctxfill(if cx.quick() { 1 } else { 2 }, 1, &|_| true);
+    let cfg = RefCfg {
+        check_span,
+        check_groups,
+        check_is_match: false,
+        need_scoped: true,
+        filter: None,
+        shadow: false,
+        alphabet: vec![],
+        max_len: 0,
+        text_list: Some(refsweep::tall_texts(if cx.quick() { 32 } else { 64 })),
+        offset0_only: true,
+    };
+    refsweep::run(cx, &space, &cfg)
+}
+
 pub fn run_c01(cx: &Ctx) -> i32 {
     let (space, alphabet, max_len) = c01_space(cx);
-    let cfg = RefCfg { check_span: true, check_groups: false, check_is_match: true, need_scoped: true, filter: None, shadow: false, alphabet: alphabet.clone(), max_len };
+    let cfg = RefCfg { check_span: true, check_groups: false, check_is_match: true, need_scoped: true, filter: None, shadow: false, alphabet: alphabet.clone(), max_len, text_list: None, offset0_only: false };
     let mut t = refsweep::run(cx, &space, &cfg);
     let (lspace, lalpha, llen) = long_text_space(cx);
-    let lcfg = RefCfg { alphabet: lalpha, max_len: llen, ..RefCfg { check_span: true, check_groups: false, check_is_match: true, need_scoped: true, filter: None, shadow: false, alphabet: vec![], max_len: 0 } };
+    let lcfg = RefCfg { alphabet: lalpha, max_len: llen, ..RefCfg { check_span: true, check_groups: false, check_is_match: true, need_scoped: true, filter: None, shadow: false, alphabet: vec![], max_len: 0 , text_list: None, offset0_only: false} };
     let t2 = refsweep::run(cx, &lspace, &lcfg);
     t.count("long_text_sweep_programs", t2.programs);
     t.count("long_text_sweep_evaluations", t2.evaluations);
     t.merge(t2);
+    let t3 = tall(cx, true, false);
+    t.count("tall_sweep_programs", t3.programs);
+    t.count("tall_sweep_evaluations", t3.evaluations);
+    t.merge(t3);
     finish(
         cx,
         t,
         Finish {
             rule: format!(
-                "every pattern of {} (scoped references) x every text over {:?} up to length {} x every char-boundary start offset, plus a second sweep of a smaller space (node bound 3 quick / 4 thorough, with {{3}}, {{0,2}}?, {{3,}} repeats, and the contexts) over all texts over [a,b] up to length 5 quick / 6 thorough; captures_from_pos (and is_match at offset 0) on the real crate versus the reference matcher; non-trivial = the pattern is compiled to a VM program and the reference finds a match or has to try more than one start position; cases in which the reference takes an empty optional iteration of an unbounded repeat (class F1) are outside its domain and skipped (counted)",
+                "every pattern of {} (scoped references) x every text over {:?} up to length {} x every char-boundary start offset, plus a second sweep of a smaller space (node bound 3 quick / 4 thorough, with {{3}}, {{0,2}}?, {{3,}} repeats, and the contexts) over all texts over [a,b] up to length 5 quick / 6 thorough, and a third 'tall' sweep of every context x one-node fillers over long regular texts (a^n, a^n b, b a^n, (ab)^n, a^n e-acute for n up to 32 quick / 64 thorough) from offset 0; captures_from_pos (and is_match at offset 0) on the real crate versus the reference matcher; non-trivial = the pattern is compiled to a VM program and the reference finds a match or has to try more than one start position; cases in which the reference takes an empty optional iteration of an unbounded repeat (class F1) are outside its domain and skipped (counted)",
                 space.describe(), alphabet, max_len
             ),
             exhaustive: true,
@@ -85,14 +108,18 @@ pub fn run_c02(cx: &Ctx) -> i32 {
     fn has_group(_n: &Node, f: &Facts) -> bool {
         f.n_groups >= 1
     }
-    let cfg = RefCfg { check_span: false, check_groups: true, check_is_match: false, need_scoped: true, filter: Some(has_group), shadow: false, alphabet: alphabet.clone(), max_len };
+    let cfg = RefCfg { check_span: false, check_groups: true, check_is_match: false, need_scoped: true, filter: Some(has_group), shadow: false, alphabet: alphabet.clone(), max_len, text_list: None, offset0_only: false };
     let mut t = refsweep::run(cx, &space, &cfg);
     let (lspace, lalpha, llen) = long_text_space(cx);
-    let lcfg = RefCfg { check_span: false, check_groups: true, check_is_match: false, need_scoped: true, filter: Some(has_group), shadow: false, alphabet: lalpha, max_len: llen };
+    let lcfg = RefCfg { check_span: false, check_groups: true, check_is_match: false, need_scoped: true, filter: Some(has_group), shadow: false, alphabet: lalpha, max_len: llen , text_list: None, offset0_only: false};
     let t2 = refsweep::run(cx, &lspace, &lcfg);
     t.count("long_text_sweep_programs", t2.programs);
     t.count("long_text_sweep_evaluations", t2.evaluations);
     t.merge(t2);
+    let t3 = tall(cx, false, true);
+    t.count("tall_sweep_programs", t3.programs);
+    t.count("tall_sweep_evaluations", t3.evaluations);
+    t.merge(t3);
     finish(
         cx,
         t,
@@ -128,7 +155,7 @@ pub fn run_c15(cx: &Ctx) -> i32 {
     let space = Space::new().exh("cond", space::cond_grammar(atoms), k).ctxfill(3, 1, &|c| c.name.contains("(?("));
     let alphabet = if cx.quick() { vec!['a', 'b', '\n'] } else { vec!['a', 'b', 'c', '\n'] };
     let max_len = 3;
-    let cfg = RefCfg { check_span: true, check_groups: true, check_is_match: false, need_scoped: true, filter: Some(has_cond), shadow: false, alphabet: alphabet.clone(), max_len };
+    let cfg = RefCfg { check_span: true, check_groups: true, check_is_match: false, need_scoped: true, filter: Some(has_cond), shadow: false, alphabet: alphabet.clone(), max_len, text_list: None, offset0_only: false };
     let t = refsweep::run(cx, &space, &cfg);
     finish(
         cx,
